@@ -198,11 +198,43 @@ func (p *Project) MergeProfiles(jdk string, os ActivationOS) (err error) {
 		prof.Properties.merge(p.Properties)
 		p.Properties = prof.Properties
 
-		p.DependencyManagement.merge(prof.DependencyManagement)
-		p.Dependencies = append(p.Dependencies, prof.Dependencies...)
+		// A dependency declared by an active profile replaces, in place, the
+		// project's declaration of the same key (and the one of an earlier
+		// profile): Maven injects profiles with the profile being dominant.
+		p.DependencyManagement.Dependencies = mergeProfileDependencies(p.DependencyManagement.Dependencies, prof.DependencyManagement.Dependencies)
+		p.Dependencies = mergeProfileDependencies(p.Dependencies, prof.Dependencies)
 		p.Repositories = append(p.Repositories, prof.Repositories...)
 	}
 	return
+}
+
+// mergeProfileDependencies merges the dependencies of an active profile into
+// deps: a profile dependency takes the place of the dependency with the same
+// key if there is one, and is appended otherwise.
+func mergeProfileDependencies(deps, profDeps []Dependency) []Dependency {
+	if len(profDeps) == 0 {
+		return deps
+	}
+	result := make([]Dependency, len(deps), len(deps)+len(profDeps))
+	copy(result, deps)
+	index := make(map[DependencyKey]int, len(result))
+	// Key is computed on copies: it fills in the default type.
+	for i, d := range result {
+		if dk := d.Key(); index[dk] == 0 {
+			index[dk] = i + 1
+		}
+	}
+	for _, d := range profDeps {
+		key := d
+		dk := key.Key()
+		if i := index[dk]; i > 0 {
+			result[i-1] = d
+			continue
+		}
+		result = append(result, d)
+		index[dk] = len(result)
+	}
+	return result
 }
 
 func appendError(e1, e2 error) error {
